@@ -376,7 +376,7 @@ func checkStartedMeansWatched(c *report.Ctx) {
 						return false
 					}
 					a, k := u.X.(*ssa.Alloc)
-					return k && a.Comment == "err"
+					return k && len(start) == 1 && holdsValueOf(a, start[0].Value())
 				})
 		})
 	}
